@@ -1,5 +1,6 @@
 (* C12 model of app/bcache (bcache.go, iterator.go) with the repairs D3 (zset.RemoveRangeByScore really
-   removes) and D24 (set/replace drop the old deadline when the new entry has none).
+   removes), D24 (set/replace drop the old deadline when the new entry has none) and D32 (setDeadline, used
+   by Load/Unmarshal, does the same).
    NO proofs in this file.
 
    Keys and values are Z. All times are ABSOLUTE UnixNano values (Z); every operation takes the instant
@@ -47,7 +48,8 @@ Inductive op :=
 | OClear
 | OSweep                        (* deleteExpire, what the sentinel ticker calls *)
 | OExport
-| ORestore (data : list (Z * entry)).   (* Clear(); Load(data) issued as one step *)
+| ORestore (data : list (Z * entry))    (* Clear(); Load(data) issued as one step *)
+| OLoad (data : list (Z * entry)).      (* Load(data) = Unmarshal onto whatever the cache holds *)
 
 Inductive out :=
 | OutUnit
@@ -101,8 +103,14 @@ Definition m_store (s : state) (k : Z) (e : entry) : state :=
   {| member := m_put k e (member s);
      visit := if snd e =? 0 then v_remove k (visit s) else v_addb (fl (snd e)) k (visit s) |}.
 
-(* setDeadline (used by Unmarshal; NOT touched by 0027): d != 0 -> AddB; member.Put *)
+(* setDeadline (used by Unmarshal), after 0041: d != 0 -> AddB, else Remove; member.Put *)
 Definition m_set_deadline (s : state) (k : Z) (e : entry) : state :=
+  {| member := m_put k e (member s);
+     visit := if snd e =? 0 then v_remove k (visit s) else v_addb (fl (snd e)) k (visit s) |}.
+
+(* setDeadline BEFORE 0041 (D32): no Remove for an untimed entry. Kept only for Props.C12_load_old_refuted;
+   the same expression is what setIfAbsent does on success (there the key is new, so nothing is stale). *)
+Definition m_set_deadline_old (s : state) (k : Z) (e : entry) : state :=
   {| member := m_put k e (member s);
      visit := if snd e =? 0 then visit s else v_addb (fl (snd e)) k (visit s) |}.
 
@@ -150,6 +158,9 @@ Definition m_sweep (s : state) (now : Z) : state :=
 Definition load_into (s : state) (data : list (Z * entry)) (now : Z) : state :=
   fold_left (fun s ke => if expired now (snd (snd ke)) then s else m_set_deadline s (fst ke) (snd ke)) data s.
 
+Definition load_into_old (s : state) (data : list (Z * entry)) (now : Z) : state :=
+  fold_left (fun s ke => if expired now (snd (snd ke)) then s else m_set_deadline_old s (fst ke) (snd ke)) data s.
+
 Definition mstep (s : state) (now : Z) (o : op) : state * out :=
   match o with
   | OSet k v ttl => (m_store s k (v, new_expire defttl now ttl), OutUnit)
@@ -162,6 +173,7 @@ Definition mstep (s : state) (now : Z) (o : op) : state * out :=
   | OSweep => (m_sweep s now, OutUnit)
   | OExport => (s, OutExport (member s))                  (* json of the whole map, expired entries included *)
   | ORestore data => (load_into st0 data now, OutUnit)
+  | OLoad data => (load_into s data now, OutUnit)
   end.
 
 Fixpoint mrun (s : state) (tops : list (Z * op)) : state * list out :=
